@@ -31,6 +31,7 @@ type HarnessCfg struct {
 	CrossSkip string `json:"cross_skip"` // solvers to skip in the thorough cross-check
 	Params    map[string]int `json:"params"` // harness parameters read with vParam
 	Solver    string `json:"solver"` // primary solver for this harness (default cvc5-int)
+	SchedBudget int  `json:"sched_budget"` // explore all orders at the first N free scheduling choices of a path (0 = at all)
 
 	stubs        map[string]*ssa.Function
 	growMonitors []func(ex *Exec, n *Term)
